@@ -9,7 +9,6 @@ import (
 // either registered (claimed) or listed here; genManifest fails otherwise.
 var notApplicable = map[string]string{
 	"C28": "Reflection API contract: a stateful abstract-model conformance over operation histories and runtime values; no structural clause short of re-specifying fieldInfo semantics per kind, which static analysis cannot decide soundly.",
-	"C30": "Equality laws (reflexive/symmetric/transitive, agreement of two implementations) quantify over runtime values; a clone-drift rule between the two implementations would alarm on behaviour-preserving edits.",
 	"C35": "Panic-freedom and rejection-completeness of descriptor validation over adversarial protos needs whole-program nil/index reasoning and a completeness argument about validators; beyond any sound static rule in reach.",
 	"C41": "Requires running the generator and the Go compiler on new schemas; not decidable from the source without execution.",
 	"C42": "Quantifies over all strings through unicode/go-token predicates and a uniqueness loop over runtime name sets; no finite structural clause.",
